@@ -100,7 +100,7 @@ func runC07(c *core.Ctx) {
 	// …and nothing stronger: a timeout for the CURRENT round must reach the instance
 	if f := fn(c, "C07-R2", ot); f != nil {
 		for _, s := range callsIn(f, iN+"Instance.UponRoundTimeout") {
-			facts := c.E.Analyze(s.Fn).FactsAt(s.Instr)
+			facts := s.Facts(c)
 			strict := ""
 			for _, key := range facts.Keys() {
 				if strings.HasPrefix(key, "lt(") && strings.Contains(key, ".State.Round, ") && strings.Contains(key, "GetTimeoutData") {
@@ -132,7 +132,7 @@ func runC07(c *core.Ctx) {
 	c.Min("C07-R3", k, 1, "partial-quorum jump in uponRoundChange")
 	if f := fn(c, "C07-R3", urc); f != nil {
 		for _, s := range callsIn(f, iN+"Instance.uponChangeRoundPartialQuorum") {
-			n := c.E.Analyze(s.Fn).D.D(s.Instr.Common().Args[2]).String()
+			n := s.Arg(c, 2).String()
 			c.Decide(n == iN+"minRound("+iN+"hasReceivedPartialQuorum(p0.State, p4)#1)", "C07-R3", "uponRoundChange|jump to minRound", c.P.Pos(s.Instr.Pos()), n, "the operator jumps to "+n+" instead of the minimum round of the f+1 round changes")
 		}
 	}
